@@ -120,6 +120,10 @@ THEOREMS = [
     "IrVerif.Clone.C13_functionalize_ext4",
     "IrVerif.Clone.C13_frame_orig_edited_ext4",
     "IrVerif.Clone.C13_frame_orig_edited_model_ext4",
+    "IrVerif.Clone.C13_meta_embed",
+    "IrVerif.Clone.C13_meta_refines_step",
+    "IrVerif.Clone.C13_meta_refines",
+    "IrVerif.Clone.C13_deep_copy_meta_fresh_main",
 ]
 ASSUMPTIONS = [
     "hand-written model IrVerif.Clone of _cloner.py / the clone entry points / the constructors they call; tied to the "
